@@ -516,7 +516,7 @@ class NutsRun:
             elif k == "retarget_other":
                 # the sampler is pointed at ANOTHER target and re-initialised (same start value)
                 sc2 = dict(cur_sc, target=dict(cur_sc["target"], zseed=cur_sc["target"]["zseed"] + 101,
-                                                kind=cur_sc["target"]["kind"] if cur_sc["target"]["kind"] != "post" else "quartic"))
+                                                kind=cur_sc["target"]["kind"] if not cur_sc["target"]["kind"].startswith("post") else "quartic"))
                 cur_sc = sc2
                 t2, info2 = zoo.build_exp_target(ctx, sc2)
                 info2["logd"].trace = []
@@ -645,7 +645,7 @@ class NutsRun:
 def gen_case(r, tier):
     iface = r.choice(["exp", "exp", "legacy"])
     dim = r.randint(1, 3)
-    tgt = {"kind": r.choice(zoo.DENSITY_KINDS + ["post"]), "dim": dim, "zseed": r.randrange(1, 10 ** 6)}
+    tgt = {"kind": r.choice(zoo.DENSITY_KINDS + ["post", "post_const"]), "dim": dim, "zseed": r.randrange(1, 10 ** 6)}
     ip = [round(r.uniform(-1, 1), 3) for _ in range(dim)]
     sc = {"iface": iface, "kind": "NUTS", "target": tgt, "knobs": {}}
     maxd = r.choice([0, 1, 2, 3, 4, 5])
